@@ -358,6 +358,9 @@ def pipeline_body(ctx: Ctx, p: dict) -> None:
                 ctx.violation("C01/left-products-presence", tag)
             if (has_val and "disparity" in kinds) != ("disparity_map" in ro):
                 ctx.violation("C01/right-products-presence", f"{tag}: validation={has_val} right vars={sorted(ro.data_vars)}")
+            if not has_val and len(ro.data_vars):
+                # no validation: no step takes effect on the right side, whatever steps (confidence, ...) the pipeline has
+                ctx.violation("C01/right-products-presence", f"{tag}: no validation step, yet the right product holds {sorted(ro.data_vars)}")
             n_stub = sum(1 for k in kinds if k in ("optimization", "semantic_segmentation"))
             exp_calls = n_stub * ns * (2 if has_val else 1)
             if len(stubs.CALLS) != exp_calls:
